@@ -130,6 +130,11 @@ def fit_case(case):
         cols[name] = _values(name, n, case['perm'][j], case.get('dup') if name == 'T' else None)
     wint = np.array(case['weights'], dtype=float)
     priors = {}
+    if case.get('gauss'):
+        # non-uniform priors whose reported 'boundaries' are only their central interval: most samples lie in the tails
+        priors = {'T': 'gaussian'}
+        if 'H2O' in fitted:
+            priors['H2O'] = 'loggaussian'
     if case.get('zeromap'):
         # the planet radius is sampled in log space and the sample of greatest weight sits at exactly one Jupiter
         # radius: its coordinate in the sampled space is exactly 0.0
@@ -187,7 +192,11 @@ def fit_case(case):
             opt0.fit()
     plan = ds.Plan(points=[[0.5] * d], modes=modes, stats=stats)
     with _silent(), ds.active(plan):
-        sol = opt.fit()
+        if case.get('osize'):
+            from taurex import OutputSize
+            sol = opt.fit(output_size=OutputSize[case['osize']])
+        else:
+            sol = opt.fit()
     fit_names = list(opt.fit_names)
     # ---- oracle ---------------------------------------------------------------------------------
     ref = dr.build_model('iso')
@@ -267,8 +276,10 @@ def fit_case(case):
         r.eq(gotn.ravel(), spec, 'native-spectrum-at-map', 'native-spectrum-at-map/%s' % tag)
         # the per-source and per-component spectra stored next to it describe the same (MAP) model
         stored_c = S['Spectra'].get('Contributions')
-        if r.check(isinstance(stored_c, dict) and len(stored_c) > 0, 'contributions-stored',
-                   'contributions/missing/%s' % tag, got=type(stored_c).__name__):
+        if case.get('osize') and not (isinstance(stored_c, dict) and len(stored_c) > 0):
+            r.count('contributions-not-stored-at-reduced-size')
+        elif r.check(isinstance(stored_c, dict) and len(stored_c) > 0, 'contributions-stored',
+                     'contributions/missing/%s' % tag, got=type(stored_c).__name__):
             _, per_source = ref.model.model_contrib()
             _, per_comp = ref.model.model_full_contrib()
             r.check(sorted(stored_c) == sorted(per_source), 'contributions-stored', 'contributions/names/%s' % tag,
@@ -353,13 +364,17 @@ def _quantiles(r, e, x, w, tag, name, rtol=1e-9):
 
 # ----------------------------------------------------------------------------------------------
 def _case(sampler, n, d, weights, perm=None, derived='mu', split=None, wscale='norm', dup=None, zeromap=False,
-          nmodes=None, prefix=None):
+          nmodes=None, prefix=None, gauss=False, osize=None):
     c = {'sampler': sampler, 'n': n, 'd': d, 'weights': list(weights),
          'perm': list(perm) if perm is not None else [0] * d, 'derived': derived}
     if nmodes:
         c['nmodes'] = nmodes
     if prefix:
         c['prefix'] = prefix
+    if gauss:
+        c['gauss'] = True
+    if osize:
+        c['osize'] = osize
     if dup is not None:
         c['dup'] = list(dup)
     if zeromap:
@@ -470,5 +485,12 @@ def explore(ctx):
         for w in [(1, 2, 3), (3, 0, 1), (2, 3, 2)]:
             for pa in (0, 3):
                 add(_case(sl, 3, 2, w, perm=[pa, 5 - pa], split=1, prefix='run2-'))
+    # Gaussian / log-Gaussian priors (samples in their tails), and the reduced output sizes of the program
+    for sl in SAMPLER_LETTERS:
+        for w in [(1, 2, 3), (3, 0, 1), (2, 3, 2)]:
+            for pa in (0, 3, 5):
+                add(_case(sl, 3, 2, w, perm=[pa, 5 - pa], split=1, gauss=True))
+                for osz in ('light', 'lighter'):
+                    add(_case(sl, 3, 2, w, perm=[pa, 5 - pa], split=1, osize=osz))
     ctx.bounds.update(n_max=5 if not quick else 3, weights='{0,1,2,3}^n minus 0', cases=len(cases))
     ctx.run_cases('fit_case', cases, chunk=8)
